@@ -239,11 +239,19 @@ def _stack_obs(kind, lst):
     return np.stack(lst)
 
 
-def ma_args(kind, ids, agents, vectorised):
+def ma_args(kind, ids, agents, vectorised, korder=0):
+    """korder: the field dicts are keyed by agent id; their key (insertion) ORDER is free - 0: every field in the declared
+    order, 1: every field reversed, 2: each field rotated by its own offset (fields disagree with each other)"""
     out = []
-    for field, base in (("state", 1), ("action", 7), ("reward", None), ("next_state", 4), ("done", None)):
+    for f_idx, (field, base) in enumerate((("state", 1), ("action", 7), ("reward", None), ("next_state", 4), ("done", None))):
         d = {}
-        for a_idx, a in enumerate(agents):
+        order = list(enumerate(agents))
+        if korder == 1:
+            order = order[::-1]
+        elif korder == 2:
+            r = (f_idx + ids[0]) % len(order)
+            order = order[r:] + order[:r]
+        for a_idx, a in order:
             vals = []
             for i in ids:
                 if field in ("state", "next_state"):
@@ -338,7 +346,9 @@ def run_multi(case, ctx):
             vect = bool(op[2]) or w > 1
             ids = list(range(next_id, next_id + w))
             next_id += w
-            args = ma_args(kind, ids, agents, vect)
+            args = ma_args(kind, ids, agents, vect, case.get("korder", 0))
+            if case.get("korder", 0) and len(agents) > 1:
+                ctx.label("multi:field-dicts-keyed-in-another-order")
             used_vect |= vect
             with ctx.promised("C09/multi/add", obs=kind, vectorised=vect):
                 buf.save_to_memory(*args, is_vectorised=vect)
@@ -430,6 +440,7 @@ def multi_strategy(draw, tier):
         "cap": draw(st.integers(1, 32 if big else 10)),
         "seed": draw(st.integers(0, 2**16)),
         "ops": draw(_ops(80 if big else 24, False)),
+        "korder": draw(st.sampled_from([0, 0, 1, 2])),
     }
 
 
@@ -447,7 +458,7 @@ PROPERTY = Property(
     ],
     assumptions=["transitions are built with agilerl.components.data.Transition exactly as the training loops do",
                  "the multi-agent buffer is scanned through sample(len) (a permutation of its content)"],
-    wanted_labels=["buffer=uniform", "buffer=per", "buffer=multi", "wrapped", "cleared", "sample-after-clear",
+    wanted_labels=["buffer=uniform", "buffer=per", "buffer=multi", "multi:field-dicts-keyed-in-another-order", "wrapped", "cleared", "sample-after-clear",
                    "obs=dict", "obs=tuple", "obs=image", "multi-vectorised"],
     fuzz=['single_agent_buffer', 'multi_agent_buffer'],
 )
